@@ -34,6 +34,7 @@ export PQMC_OUT_DIR=$S/out
 for p in $PROPS; do
   out=$(timeout 3600 $S/target/release/pqmc check $p $TIER 2>&1); rc=$?
   v=$(echo "$out" | grep -m1 "^VIOLATION" | sed "s#$S/out#<out>#")
+  echo "$out" > $D/check-$p-$TIER.log
   echo "RESULT check $p $TIER: exit=$rc ${v}"
   echo "$out" | grep -A4 -m1 "^VIOLATION" | tail -4 | cut -c1-300
 done
